@@ -184,7 +184,41 @@ out = {'second_vs_fresh_with_new_value': rel(second, want), 'second_vs_first': r
     return _RP[key]
 
 
+def check_grids_not_aliased(led):
+    """ConeCyl._default_field (behind uvw / strain / stress / plot): the grids it stores and returns are copies -- the plotting code
+    updates the stored grid in place, and the caller's arrays must not be touched"""
+    from ..pysym import Interp
+    func = CC + '_default_field'
+    led.function(func)
+    it = PC.mk()
+    X = np.array([[real('x00'), real('x01')], [real('x10'), real('x11')]], dtype=object)
+    Tt = np.array([[real('t00'), real('t01')], [real('t10'), real('t11')]], dtype=object)
+    keepX, keepT = X.copy(), Tt.copy()
+
+    def run():
+        cc = PC.new_cc(it, **base_attrs())
+        r = it.call(it.getattr(cc, '_default_field'), [X, Tt, 5, 5], {})
+        return cc, r
+    for path, out in it.explore(run):
+        name = func + '/stored-and-returned-grids-do-not-share-memory-with-the-caller-arrays'
+        if out[0] != 'return':
+            led.fail(name + '/no-exception', func, {'raises': out[1].tname}, signature='raise')
+            continue
+        cc, r = out[1]
+        probs = []
+        for lab, arr in (('self.Xs', cc.attrs.get('Xs')), ('self.Ts', cc.attrs.get('Ts')), ('returned xs', r[0]), ('returned ts', r[1])):
+            if isinstance(arr, np.ndarray) and (np.shares_memory(arr, X) or np.shares_memory(arr, Tt)):
+                probs.append('%s shares its memory with an array of the caller' % lab)
+        if not ((X == keepX).all() and (Tt == keepT).all()):
+            probs.append('the caller arrays were modified')
+        if probs:
+            led.fail(name, func, {'differences': probs}, signature='grid-alias')
+        else:
+            led.ok(name, func)
+
+
 def check(led):
+    check_grids_not_aliased(led)
     it = harness()
     it.facts += [to_z3(real('r2')) > 0, to_z3(real('H')) > 0, to_z3(shims.PI) > 3, to_z3(real('alphadeg')) > 0, to_z3(real('alphadeg')) < 90,
                  to_z3(real('r2_new')) > 0, to_z3(real('H_new')) > 0, to_z3(real('alphadeg_new')) > 0, to_z3(real('alphadeg_new')) < 90]
